@@ -33,6 +33,10 @@ import (
 	"strings"
 	"time"
 
+	"google.golang.org/protobuf/types/known/timestamppb"
+	"reduction.dev/reduction-protocol/handlerpb"
+	"reduction.dev/reduction-protocol/jobconfigpb"
+	"reduction.dev/reduction/batching"
 	"reduction.dev/reduction/config"
 	"reduction.dev/reduction/connectors"
 	"reduction.dev/reduction/dkv"
@@ -42,23 +46,33 @@ import (
 	"reduction.dev/reduction/proto"
 	"reduction.dev/reduction/proto/jobpb"
 	"reduction.dev/reduction/storage/locations"
+	"reduction.dev/reduction/workers"
 
 	"verif/harness/lib"
 )
 
 type c14Cluster struct {
-	w        *c01World
-	n        int
-	spID     uint64
-	spURI    string
-	cut      []int            // source cursor per split at the savepoint
-	run1     []string         // d: tokens of the run the savepoint was taken in, in order
-	pre      map[int][]string // per key: records before the cut, in the order they were handled
-	post     map[int][]string // per key: records handled since the restart
-	restored bool
-	problem  string
-	scratch  int
-	keep     []any
+	w         *c01World
+	n         int
+	spID      uint64
+	spURI     string
+	cut       []int            // source cursor per split at the savepoint
+	run1      []string         // d: tokens of the run the savepoint was taken in, in order
+	pre       map[int][]string // per key: records before the cut, in the order they were handled
+	post      map[int][]string // per key: records handled since the restart
+	restored  bool
+	problem   string
+	timers    bool
+	regPre    map[string]bool   // timers (key:ts) set by records before the cut
+	regRun1   map[string][3]int // timers set in the first run: key:ts -> (split, index, key)
+	regPost   map[string]bool   // timers set since the restart
+	firedPre  map[string]bool   // timers that fired before the owning operator's checkpoint for the savepoint
+	firedPost map[string]bool
+	timeline  []string        // first run: T: and c: tokens in order
+	regSure   map[string]bool // first run: timers that were certainly above the watermark when set
+	maxEvent  int
+	scratch   int
+	keep      []any
 }
 
 func c14ClusterNewJob(w *c01World, n int, savepointURI string) error {
@@ -102,10 +116,36 @@ func c14ClusterNewJob(w *c01World, n int, savepointURI string) error {
 // absorb reads the event tokens produced since the last call
 func (c *c14Cluster) absorb() []string {
 	toks := strings.Fields(c.w.take())
+	if os.Getenv("C14_TOKENS") != "" {
+		fmt.Fprintln(os.Stderr, "TOK", strings.Join(toks, " "))
+	}
 	for _, t := range toks {
 		if strings.HasPrefix(t, "!") || strings.HasPrefix(t, "sa:") {
 			if c.problem == "" {
 				c.problem = "event " + t
+			}
+		}
+		if !c.restored && (strings.HasPrefix(t, "T:") || strings.HasPrefix(t, "c:")) {
+			c.timeline = append(c.timeline, t)
+		}
+		if strings.HasPrefix(t, "T:") && c.restored {
+			// T:<o>:<k>:<ts>  the handler of operator o was told that the timer ts of key k expired
+			if p := strings.Split(t, ":"); len(p) == 4 {
+				id := p[2] + ":" + p[3]
+				switch {
+				case c.firedPre[id]:
+					c.fail("timer " + id + " fired before the savepoint and again after the restart")
+				case c.firedPost[id]:
+					c.fail("timer " + id + " fired twice after the restart")
+				case !c.regPre[id] && !c.regPost[id]:
+					c.fail("timer " + id + " fired after the restart but was set neither before the savepoint's cut nor since")
+				}
+				if c.regPre[id] && !c.regPost[id] {
+					c14StatMu.Lock()
+					c14Stat["cluster_timers_pending_at_savepoint_fired_after_restart"]++
+					c14StatMu.Unlock()
+				}
+				c.firedPost[id] = true
 			}
 		}
 		if !strings.HasPrefix(t, "d:") {
@@ -120,10 +160,21 @@ func (c *c14Cluster) absorb() []string {
 		sp, _ := strconv.Atoi(p[2])
 		idx, _ := strconv.Atoi(p[3])
 		k, _ := strconv.Atoi(p[4])
+		tid := fmt.Sprintf("%d:%d", k, c14TimerOf(sp, idx))
 		if !c.restored {
 			c.run1 = append(c.run1, t)
+			c.regRun1[tid] = [3]int{sp, idx, k}
+			// a timer at or below the watermark is not set (TimerRegistry.SetTimer's guard, C10/C11). The watermark never
+			// exceeds the largest event time handed out so far, so a timer above that was certainly set.
+			if c14TimerOf(sp, idx) > c.maxEvent {
+				c.regSure[tid] = true
+			}
+			if et := c14EventTime(sp, idx); et > c.maxEvent {
+				c.maxEvent = et
+			}
 			continue
 		}
+		c.regPost[tid] = true
 		want := strings.Join(append(append([]string{}, c.pre[k]...), c.post[k]...), ",")
 		if want == "" {
 			want = "-"
@@ -134,6 +185,116 @@ func (c *c14Cluster) absorb() []string {
 		c.post[k] = append(c.post[k], fmt.Sprintf("%d.%d", sp, idx))
 	}
 	return toks
+}
+
+func (c *c14Cluster) fail(s string) {
+	if c.problem == "" {
+		c.problem = s
+	}
+}
+
+// the event time of record idx of split sp (seconds after the epoch), and the timer its handler sets
+func c14EventTime(sp, idx int) int { return idx*8 + sp + 1 }
+func c14TimerOf(sp, idx int) int   { return c14EventTime(sp, idx) + 20 }
+
+// c14Handler is the C01 reference handler plus event-time timers: every record carries an event time and its handler
+// sets one timer; expirations the handler is told are logged
+type c14Handler struct {
+	inner *c01Handler
+}
+
+func (h *c14Handler) KeyEventBatch(ctx context.Context, events [][]byte) ([][]*handlerpb.KeyedEvent, error) {
+	out, err := h.inner.KeyEventBatch(ctx, events)
+	for i, e := range events {
+		parts := strings.Split(string(e), ":")
+		if len(parts) == 3 && i < len(out) {
+			sp, _ := strconv.Atoi(parts[0])
+			idx, _ := strconv.Atoi(parts[1])
+			for _, ke := range out[i] {
+				ke.Timestamp = timestamppb.New(time.Unix(int64(c14EventTime(sp, idx)), 0))
+			}
+		}
+	}
+	return out, err
+}
+
+func (h *c14Handler) ProcessEventBatch(ctx context.Context, req *handlerpb.ProcessEventBatchRequest) (*handlerpb.ProcessEventBatchResponse, error) {
+	w := h.inner.w
+	timers := map[string][]*timestamppb.Timestamp{}
+	w.mu.Lock()
+	zombie := h.inner.wk.killed.Load()
+	for _, ev := range req.Events {
+		if te := ev.GetTimerExpired(); te != nil && !zombie {
+			w.log("T:%d:%d:%d", h.inner.wk.opIdx, c01KeyID(te.Key), te.Timestamp.AsTime().Unix())
+		}
+		if ke := ev.GetKeyedEvent(); ke != nil {
+			parts := strings.Split(string(ke.Value), ":")
+			if len(parts) == 3 {
+				sp, _ := strconv.Atoi(parts[0])
+				idx, _ := strconv.Atoi(parts[1])
+				timers[string(ke.Key)] = append(timers[string(ke.Key)], timestamppb.New(time.Unix(int64(c14TimerOf(sp, idx)), 0)))
+			}
+		}
+	}
+	w.mu.Unlock()
+	resp, err := h.inner.ProcessEventBatch(ctx, req)
+	if err == nil && resp != nil {
+		for _, kr := range resp.KeyResults {
+			kr.NewTimers = append(kr.NewTimers, timers[string(kr.Key)]...)
+		}
+	}
+	return resp, err
+}
+
+// c14NewWorker is c01World.newWorker with the timer-setting handler
+func c14NewWorker(w *c01World) *c01Worker {
+	w.mu.Lock()
+	num := len(w.workers)
+	wk := &c01Worker{num: num, world: w, clk: newC01Clock(), opIdx: -1, srIdx: -1,
+		opID: fmt.Sprintf("w%03d-op", num), srID: fmt.Sprintf("w%03d-sr", num)}
+	w.workers = append(w.workers, wk)
+	w.byID[wk.opID] = wk
+	w.byID[wk.srID] = wk
+	w.mu.Unlock()
+	h := &c14Handler{inner: &c01Handler{w: w, wk: wk}}
+	wk.w = workers.VerifNewC01(workers.NewParams{
+		Host:            "h",
+		Handler:         h,
+		Job:             &c01JobClient{w: w, wk: wk},
+		Clock:           wk.clk,
+		OperatorFactory: w.opFactory,
+		EventBatching:   batching.EventBatcherParams{MaxDelay: time.Millisecond, MaxSize: w.cfg.batch},
+	}, wk.opID, wk.srID, func(*jobconfigpb.Source) connectors.SourceReader {
+		w.mu.Lock()
+		defer w.mu.Unlock()
+		return &c01Reader{w: w, wk: wk, dep: w.dep + 1, cur: map[int]int{}}
+	})
+	wk.w.Operator.Logger = slog.New(slog.NewTextHandler(c01Discard{}, nil))
+	wk.w.SourceRunner.Logger = slog.New(slog.NewTextHandler(c01Discard{}, nil))
+	ctx, cancel := context.WithCancel(context.Background())
+	wk.cancel = cancel
+	go func() {
+		func() {
+			defer func() { recover() }()
+			wk.w.Start(ctx)
+		}()
+		w.mu.Lock()
+		if !wk.killed.Load() {
+			wk.killed.Store(true)
+			w.log("x:%d", wk.num)
+			w.dropAcksLocked(wk)
+		}
+		w.mu.Unlock()
+	}()
+	return wk
+}
+
+func (c *c14Cluster) spawn() {
+	if c.timers {
+		c14NewWorker(c.w)
+	} else {
+		c.w.newWorker()
+	}
 }
 
 func (c *c14Cluster) feed(seed, count int) string {
@@ -149,6 +310,10 @@ func (c *c14Cluster) feed(seed, count int) string {
 	for time.Now().Before(deadline) && !w.quiescent() {
 		time.Sleep(300 * time.Microsecond)
 	}
+	if c.timers {
+		// the source runners send watermarks from a real 200 ms ticker: give timers the chance to fire
+		time.Sleep(260 * time.Millisecond)
+	}
 	c.absorb()
 	if c.problem != "" {
 		return c.problem
@@ -157,6 +322,53 @@ func (c *c14Cluster) feed(seed, count int) string {
 		return "not-quiescent"
 	}
 	return "ok"
+}
+
+// timersDue: every timer that was pending at the savepoint and lies well below what every source has since delivered
+// must have fired after the restart (bounded wait: watermarks come from a real 200 ms ticker)
+func (c *c14Cluster) timersDue() string {
+	if !c.timers || !c.restored {
+		return "ok"
+	}
+	w := c.w
+	w.mu.Lock()
+	minLast := -1
+	for sp := range w.splits {
+		last := c14EventTime(sp, len(w.splits[sp])-1)
+		if len(w.splits[sp]) == 0 {
+			last = 0
+		}
+		if minLast < 0 || last < minLast {
+			minLast = last
+		}
+	}
+	runnersHaveSplits := w.cfg.nsplits >= w.cfg.n
+	w.mu.Unlock()
+	if !runnersHaveSplits {
+		return "ok" // a runner without a split never reports a watermark: nothing is due
+	}
+	deadline := time.Now().Add(3 * time.Second)
+	for {
+		c.absorb()
+		missing := ""
+		for id := range c.regPre {
+			ts, _ := strconv.Atoi(id[strings.Index(id, ":")+1:])
+			if c.regSure[id] && !c.firedPre[id] && !c.firedPost[id] && ts <= minLast-40 {
+				missing = id
+				break
+			}
+		}
+		if c.problem != "" {
+			return c.problem
+		}
+		if missing == "" {
+			return "ok"
+		}
+		if time.Now().After(deadline) {
+			return "timer " + missing + " was pending at the savepoint and never fired after the restart"
+		}
+		time.Sleep(50 * time.Millisecond)
+	}
 }
 
 func (c *c14Cluster) round(seed int) bool {
@@ -252,6 +464,23 @@ func (c *c14Cluster) savepoint(seed int, fold bool) string {
 			c.pre[k] = append(c.pre[k], fmt.Sprintf("%d.%d", sp, idx))
 		}
 	}
+	// timers: set by records before the cut; fired before the owning operator's checkpoint for the savepoint
+	c.regPre, c.firedPre = map[string]bool{}, map[string]bool{}
+	for tid, r := range c.regRun1 {
+		if r[1] < c.cut[r[0]] {
+			c.regPre[tid] = true
+		}
+	}
+	cutDone := map[string]bool{}
+	for _, t := range c.timeline {
+		p := strings.Split(t, ":")
+		if p[0] == "c" && len(p) == 3 && p[2] == strconv.FormatUint(id, 10) {
+			cutDone[p[1]] = true
+		}
+		if p[0] == "T" && len(p) == 4 && !cutDone[p[1]] {
+			c.firedPre[p[2]+":"+p[3]] = true
+		}
+	}
 	if c.problem != "" {
 		return c.problem
 	}
@@ -337,7 +566,7 @@ func (c *c14Cluster) restart(m int, wipe bool) string {
 		return "no-checkpoint-loaded-from-savepoint"
 	}
 	for i := 0; i < m; i++ {
-		w.newWorker()
+		c.spawn()
 	}
 	time.Sleep(time.Millisecond)
 	w.heartbeat()
@@ -387,23 +616,47 @@ func c14ClusterImpl(c lib.Case) []string {
 	if err := c14ClusterNewJob(w, hv["n"], ""); err != nil {
 		return []string{"setup-error " + err.Error()}
 	}
-	cl := &c14Cluster{w: w, n: hv["n"], pre: map[int][]string{}, post: map[int][]string{}}
+	cl := &c14Cluster{w: w, n: hv["n"], pre: map[int][]string{}, post: map[int][]string{}, timers: hv["timers"] == 1,
+		regSure: map[string]bool{}, regRun1: map[string][3]int{}, regPre: map[string]bool{}, regPost: map[string]bool{}, firedPre: map[string]bool{}, firedPost: map[string]bool{}}
 	out := make([]string, 0, len(c.Ops))
+	defer func() {
+		if cl.timers {
+			pend := 0
+			for id := range cl.regPre {
+				if !cl.firedPre[id] && cl.regSure[id] {
+					pend++
+				}
+			}
+			c14StatMu.Lock()
+			c14Stat["cluster_timer_cases"]++
+			c14Stat["cluster_timers_fired_before_savepoint"] += len(cl.firedPre)
+			c14Stat["cluster_timers_pending_at_savepoint"] += pend
+			c14Stat["cluster_timers_fired_after_restart"] += len(cl.firedPost)
+			c14StatMu.Unlock()
+			if os.Getenv("C14_DEBUG") != "" {
+				fmt.Fprintf(os.Stderr, "timers: set-before-cut=%d fired-before=%d pending=%d fired-after-restart=%d set-after=%d\n", len(cl.regPre), len(cl.firedPre), pend, len(cl.firedPost), len(cl.regPost))
+			}
+		}
+	}()
 	atoi := func(s string) int { n, _ := strconv.Atoi(s); return n }
+	booted := false
 	for _, line := range c.Ops {
 		a := strings.Fields(line)
 		o := "bad-op"
 		switch {
 		case len(a) == 1 && a[0] == "boot":
 			for i := 0; i < cl.n; i++ {
-				w.newWorker()
+				cl.spawn()
 			}
 			if w.waitRunning(0) {
 				o = "running"
+				booted = true
 			} else {
 				o = "not-running"
 			}
 			cl.absorb()
+		case !booted && (a[0] == "feed" || a[0] == "ckpt" || a[0] == "savepoint" || a[0] == "restart" || a[0] == "timersdue"):
+			o = "not-booted"
 		case len(a) == 3 && a[0] == "feed":
 			o = cl.feed(atoi(a[1]), atoi(a[2]))
 		case len(a) == 2 && a[0] == "ckpt":
@@ -416,6 +669,8 @@ func c14ClusterImpl(c lib.Case) []string {
 			cl.absorb()
 		case (len(a) == 2 || len(a) == 3) && a[0] == "savepoint":
 			o = cl.savepoint(atoi(a[1]), len(a) == 3 && a[2] == "fold")
+		case len(a) == 1 && a[0] == "timersdue":
+			o = cl.timersDue()
 		case len(a) == 3 && a[0] == "restart":
 			o = cl.restart(atoi(a[1]), a[2] == "wipe")
 			if o == "restored ok" {
@@ -455,9 +710,16 @@ func c14ClusterGen(r *lib.Rng) lib.Case {
 	}
 	ops = append(ops, fmt.Sprintf("restart %d %s", m, how), fmt.Sprintf("feed %d %d", r.Intn(1000), r.Range(4, 25)))
 	tags := []string{"cluster"}
+	timers := 0
+	if r.Chance(1, 5) {
+		// the handler sets event-time timers: those pending at the savepoint fire exactly once after the restart
+		timers = 1
+		tags = append(tags, "cluster-timers")
+		ops = append(ops, fmt.Sprintf("feed %d %d", r.Intn(1000), r.Range(20, 30)), "timersdue")
+	}
 	if m != n {
 		tags = append(tags, "cluster-rescale")
 	}
-	return lib.Case{Header: fmt.Sprintf("M C14 mode=cluster n=%d kgc=%d splits=%d keys=%d rot=%d", n, lib.Pick(r, []int{4, 8, 16}), r.Range(1, 3), r.Range(2, 6), lib.Pick(r, []int{0, 0, 2})),
+	return lib.Case{Header: fmt.Sprintf("M C14 mode=cluster n=%d kgc=%d splits=%d keys=%d rot=%d timers=%d", n, lib.Pick(r, []int{4, 8, 16}), r.Range(1, 3), r.Range(2, 6), lib.Pick(r, []int{0, 0, 2}), timers),
 		Ops: ops, Tags: tags}
 }
